@@ -233,3 +233,8 @@ fn regex_to_range_map(bindings: &Map<Var, Regex>, re: &Regex) -> RangeMap<()> {
 }
 
 fn merge_values(_val1: &mut (), _val2: ()) {}
+
+#[cfg(lexgen_verif)]
+pub fn verif_regex_to_range_map(bindings: &Map<Var, Regex>, re: &Regex) -> RangeMap<()> {
+    regex_to_range_map(bindings, re)
+}
